@@ -22,8 +22,8 @@ open StVerif.Spec StVerif.Spec.Render
 
 /-- **refinement**: the sink receives exactly the bytes of the specified rendering, and fails
     exactly when and how the Spec says (all eight integer types of widths 8/16/32/64, the five
-    character types, booleans, narrow strings, null strings, floating point whose libc rendering
-    fits the library buffer; all flag combinations, all field orders, `&N` and sequential mixed) -/
+    character types, booleans, narrow strings, null strings, floating point with a libc rendering
+    of any length; all flag combinations, all field orders, `&N` and sequential mixed) -/
 theorem format_outcome_eq_spec (fmt : List Nat) (hz : NoNul fmt) (args : List Arg) (ha : ArgsOk args) :
     (run (some fmt) args).map flatten = render fmt args := by
   unfold run runEvents applyFormat render
@@ -91,7 +91,7 @@ theorem format_string_eq_spec (m : Mode) (fmt : List Nat) (hz : NoNul fmt) (args
 
 /-- one field on one argument: every `format_type` overload emits the specified rendering, for
     every spec the parser can produce -/
-theorem field_eq_spec (a : Arg) (f : FormatSpec) (ha : a.InRange) (hf : SpecInt f) (hfl : a.FloatFits) :
+theorem field_eq_spec (a : Arg) (f : FormatSpec) (ha : a.InRange) (hf : SpecInt f) (hfl : a.LibcRenders) :
     (formatType a f).map flatten = renderField f a :=
   formatType_eq_spec a f ha hf hfl
 
